@@ -6,7 +6,7 @@
    Invariants: Proofs/TokenInv.v (Tiling, InBounds, OrderedDisjoint, ZeroWidthOnlyBreaks), Proofs/Shape.v
    (kind_shape / Shape), Proofs/CondenseInv.v (Grouped + the grouping rule G_* of each pass, QuotesOk). *)
 Require Import Base Overlap OverlapProofs Tables_lexer Lexer Condense ListLemmas TokenInv CondenseInv LexerProofs
-  CondPatterns3 CondPattern CondSpaces CondInitialisms CondSuffixQuotes Shape DocumentProofs.
+  CondPatterns3 CondPattern CondSpaces CondInitialisms CondSuffixQuotes Shape NumberFinite WordsMaximal DocumentProofs.
 From Coq Require Import ZArith.
 
 (* ---------- the lexer ---------- *)
@@ -37,7 +37,7 @@ Print Assumptions C02_tiling_invariants.
 
 (* every raw token has the lexical shape of its kind: word => no whitespace, space => blanks with the right
    count, newline => that many '\n', number => the text is the literal that denotes the value (decimal by
-   the float grammar, hex as 0x<digits>), punctuation => the one character from_char maps to it (quotes: a
+   the float grammar, with a value that rounds to a FINITE f64; hex as 0x<digits>), punctuation => the one character from_char maps to it (quotes: a
    quote character) *)
 Theorem C02_plain_shape : forall u, uni_laws u -> forall s ts,
   plain_parse u s = Ok ts -> Shape u false false s ts.
@@ -45,6 +45,23 @@ Proof. exact plain_parse_shape. Qed.
 Check C02_plain_shape : forall u, uni_laws u -> forall s ts,
   plain_parse u s = Ok ts -> Shape u false false s ts.
 Print Assumptions C02_plain_shape.
+
+(* Lexer.f64_finite — the test lex_number applies to a parse since b5c1992, part of the number shape — means:
+   the exact value mant * 10^ex is below 2^1024 - 2^970, the midpoint between f64::MAX and 2^1024, i.e. the
+   correctly rounded (nearest, ties to even) f64 is finite *)
+Theorem C02_f64_finite_spec : forall mant ex, f64_finite mant ex = true <-> below_overflow mant ex.
+Proof. exact f64_finite_spec. Qed.
+Check C02_f64_finite_spec : forall mant ex, f64_finite mant ex = true <-> below_overflow mant ex.
+Print Assumptions C02_f64_finite_spec.
+
+(* a raw Word token is a whole word: two Word tokens are never adjacent in the output of PlainEnglish::parse
+   (7202fd4; under three Unicode laws: lingual => alphabetic, ASCII letters are lingual, ASCII digits numeric) *)
+Theorem C02_words_maximal : forall u, word_laws u -> forall s ts,
+  plain_parse u s = Ok ts -> NoAdjacentWords ts.
+Proof. exact plain_words_maximal. Qed.
+Check C02_words_maximal : forall u, word_laws u -> forall s ts,
+  plain_parse u s = Ok ts -> NoAdjacentWords ts.
+Print Assumptions C02_words_maximal.
 
 (* ---------- the passes of Document::parse, one preservation theorem each ---------- *)
 (* cutting a tiling into groups and replacing each group by one token spanning it keeps the tiling *)
@@ -140,6 +157,14 @@ Check C02_document_shape : forall u, uni_laws u -> forall s,
   exists ts, document_plain u s = Ok ts /\ Tiling 0 (length s) ts /\ Shape u true true s ts /\ QuotesOk ts.
 Print Assumptions C02_document_shape.
 
+(* no decimal Number token of the document carries a value that overflows f64 (F16 is repaired: b5c1992) *)
+Theorem C02_document_numbers_finite : forall u, uni_laws u -> forall s,
+  exists ts, document_plain u s = Ok ts /\ Forall number_finite ts.
+Proof. exact document_numbers_finite. Qed.
+Check C02_document_numbers_finite : forall u, uni_laws u -> forall s,
+  exists ts, document_plain u s = Ok ts /\ Forall number_finite ts.
+Print Assumptions C02_document_numbers_finite.
+
 (* the property's clause "a word contains no whitespace" is REFUTED by the faithful model: `et al.` is one Word
    token over six characters, the third of which is a space (finding F7, condense_latin; replayed on the
    implementation by corpus/C02) *)
@@ -156,6 +181,37 @@ Print Assumptions C02_word_no_whitespace_refuted.
 (* the laws are satisfiable *)
 Example C02_laws_satisfiable : uni_laws ascii_uni.
 Proof. exact ascii_uni_laws. Qed.
+Example C02_word_laws_satisfiable : word_laws ascii_uni.
+Proof. exact ascii_uni_word_laws. Qed.
+
+(* both sides of the overflow boundary *)
+Example C02_f64_finite_nonvacuous :
+  f64_finite 1 308 = true /\ f64_finite 1 999 = false /\ f64_finite 17976931348623157 292 = true /\
+  f64_finite f64_overflow_bound 0 = false /\ f64_finite (f64_overflow_bound - 1) 0 = true /\
+  f64_finite 1 (-99999999999999999999) = true /\ f64_finite (f64_overflow_bound * 1000) (-3) = false.
+Proof. exact f64_finite_examples. Qed.
+
+(* HISTORY — witnesses of repaired defects (the old behaviour, over `_old` definitions, or the new tokens):
+   F16 / b5c1992: `1e999` is no longer one Number token with an infinite value *)
+Example C02_number_overflow_old_refuted :
+  plain_parse ascii_uni [49; 101; 57; 57; 57]%N
+  = Ok [mktok (mkspan 0 4) (KNumber (mknumber false 1 99%Z None 10 0));
+        mktok (mkspan 4 5) (KNumber (mknumber false 9 0%Z None 10 0))]
+  /\ parse_f64 [49; 101; 57; 57; 57]%N = Some (false, 1%N, 999%Z) /\ f64_finite 1 999 = false.
+Proof. exact number_overflow_witness. Qed.
+(* FC06a / 7202fd4: the old ASCII-only look-ahead cut `as` off `asüs`; now it is one Word *)
+Example C02_plural_digit_old_refuted :
+  word_laws uni_u_umlaut /\
+  lex_plural_digit_old [97; 115; 252; 115]%N = Some (2, KWord) /\
+  lex_plural_digit uni_u_umlaut [97; 115; 252; 115]%N = None /\
+  plain_parse uni_u_umlaut [97; 115; 252; 115]%N = Ok [mktok (mkspan 0 4) KWord].
+Proof. exact plural_digit_old_splits_a_word. Qed.
+(* FC17a / dcfd71f: `2st's` keeps its (wrong) ordinal suffix on the Number token *)
+Example C02_suffix_before_contraction :
+  document_plain ascii_uni [50; 115; 116; 39; 115]%N
+  = Ok [mktok (mkspan 0 3) (KNumber (mknumber false 2 0%Z (Some SufSt) 10 0));
+        mktok (mkspan 3 4) (KPunct PApostrophe); mktok (mkspan 4 5) KWord].
+Proof. exact suffix_before_contraction_witness. Qed.
 
 (* "Hi  th3re, 1st." lexes to eight tokens tiling 15 characters *)
 Example C02_plain_nonvacuous :
